@@ -13,6 +13,21 @@ fn hll_hdr(pre: u8, lgk: u8, lgarr: u8, flags: u8, state: u8, mode: u8) -> Vec<u
 fn run(name: &str) -> String {
     match name {
         // ---------------- HLL
+        "hll_union_result_roundtrip" => {
+            // C11: the result of a union (out of order, HIP accumulator carried over from the source) must survive serialize -> deserialize
+            let mut out = String::new();
+            for ty in [HllType::Hll8, HllType::Hll6, HllType::Hll4] {
+                let mut s = HllSketch::new(10, ty);
+                for i in 0..5000u64 { s.update(i); }
+                let mut u = HllUnion::new(10);
+                u.update(&s);
+                let r = u.to_sketch(ty);
+                let img = r.serialize();
+                let d = HllSketch::deserialize(&img).unwrap();
+                out += &format!("{:?}: equal={} same_bytes={} hip_bytes_r={:?} hip_bytes_d={:?}; ", ty, r == d, d.serialize() == img, &img[8..16], &d.serialize()[8..16]);
+            }
+            out
+        }
         "hll_list_lgarr_200" => { let b = hll_hdr(2, 10, 200, 0, 1, 2 << 2); format!("{:?}", HllSketch::deserialize(&b).map(|s| s.estimate())) }
         "hll_list_lgarr_40" => { let b = hll_hdr(2, 10, 40, 0, 1, 2 << 2); format!("{:?}", HllSketch::deserialize(&b).map(|s| s.estimate())) }
         "hll_set_full" => {
